@@ -249,16 +249,19 @@ def _try_except(ctx, rep, cl, av):
     import ast
     fn = av.fn
     ok = False
-    for n in ast.walk(fn.node):
-        if isinstance(n, ast.Try):
-            calls = [c for s in n.body for c in ast.walk(s) if isinstance(c, ast.Call) and isinstance(c.func, ast.Attribute) and c.func.attr == "juniper_decrypt"]
-            if calls:
-                names = []
-                for h in n.handlers:
-                    names.append(ast.unparse(h.type) if h.type is not None else "bare")
-                catches = any(x in ("ValueError", "Exception", "BaseException", "bare") or "ValueError" in x for x in names)
-                body_ok = all(not any(isinstance(x, (ast.Raise,)) for s in h.body for x in ast.walk(s)) for h in n.handlers)
-                ok = catches and body_ok
+    found = 0
+    for path in av.paths:
+        for e, ls in path.calls():
+            if M.callee_name(e.a) == "juniper_decrypt" and e.a[2] and e.a[2][0] == av.V:
+                found += 1
+                host = getattr(e, "origin", None)
+                host = host if host is not None and host != "synthetic" else fn
+                ok = _in_try_valueerror(host, e.node)
+                if not ok:
+                    break
+        if found and not ok:
+            break
+    ok = ok and found > 0
     rep.ob(cl + ".decrypt-guarded", fn.name, ok, "juniper_decrypt(value) is wrapped in try/except ValueError that does not re-raise (malformed $9$ strings fall back to plain handling)", W(fn), key=cl + ".decrypt-guarded|_anonymize_value")
     # the raw decrypt call outside a try (the stored juniper_decrypt(anon_val)) is on pseudonyms only
     for path in av.paths:
@@ -274,3 +277,15 @@ def _enum_members(ctx, rep, cl, want):
     c = ctx.p.find_class("_sensitive_item_formats")
     members = {k for k in c.assigns if not k.startswith("_")}
     rep.ob(cl + ".format-enum", c.name, members == want, "format classes declared: %s; handled: %s (a member without classifier/encoder would silently fall back to text)" % (sorted(members), sorted(want)), "%s:%d" % (c.module.relpath, c.node.lineno), key=cl + ".format-enum|_sensitive_item_formats")
+
+
+def _in_try_valueerror(f, node):
+    import ast
+    for n in ast.walk(f.node):
+        if isinstance(n, ast.Try):
+            if any(node is x for st in n.body for x in ast.walk(st)):
+                for h in n.handlers:
+                    nm = ast.unparse(h.type) if h.type is not None else "bare"
+                    if (nm in ("ValueError", "Exception", "BaseException", "bare") or "ValueError" in nm) and not any(isinstance(x, ast.Raise) for st in h.body for x in ast.walk(st)):
+                        return True
+    return False
